@@ -27,6 +27,10 @@ class Cfg:
     def nontrivial(self, ops, outs):
         return True
 
+    def timing_sensitive(self, sig, detail):
+        """oracle failures that are a call exceeding the harness time-out: reported only when they reproduce"""
+        return sig in ("hang", "timeout") or detail.startswith("hang ") or " timed out" in detail
+
     def neighbours(self, ops):
         """variants of a (shrunk) disagreeing case on which the oracle is also tried"""
         res = []
@@ -200,10 +204,16 @@ def run(cfg, tier, seed):
         if sig in known:
             rep.known(sig); continue
         if sig in reported: continue
-        reported.add(sig)
         def failing(c):
             _run_case_files(cfg, dv, None, work, c, "o")
             return any(s == sig for s, _ in case_oracle(cfg, c, os.path.join(work, "shrink_o.ops.impl")))
+        if cfg.timing_sensitive(sig, detail) and not any(failing(cops) for _ in range(3)):
+            # a call that timed out once (machine under load) and completes on three standalone re-runs of the
+            # same case is not a replayable violation: counted in the evidence, not reported
+            cov.setdefault("unreproduced_timeouts", []).append({"stream": name, "signature": sig, "detail": detail[:200]})
+            print("# timeout not reproduced on 3 re-runs of the case, not reported: %s: %s" % (sig, detail[:160]))
+            continue
+        reported.add(sig)
         small = lib.ddmin(cops, failing)
         rep.violation(lib.save_replay(cfg.prop, small), "oracle: %s: %s (stream %s)" % (sig, detail, name))
 
